@@ -89,6 +89,15 @@ Section C04.
     apply list_all_sorted.
   Qed.
 
+  (** list / containersOf of a (25-byte) owner come in ascending order of ids. *)
+  Theorem C04_list_sorted : forall cs o,
+    CInv cs -> length o = 25%nat ->
+    Sorted bytes_le (containers_of cs o) /\ list_cnrs cs o = containers_of cs o.
+  Proof.
+    intros cs o HI Hl. split; [apply (containers_of_sorted cid_of); auto|].
+    apply list_owner_eq. destruct o; [discriminate|reflexivity].
+  Qed.
+
   Theorem C04_get_is_preimage : forall cs cid c,
     CInv cs -> get cs cid = Halt c -> cid_of (c_val c) = cid.
   Proof. intros. eapply get_preimage; eauto. Qed.
@@ -165,6 +174,7 @@ Print Assumptions C04_consistent.
 Print Assumptions C04_refines.
 Print Assumptions C04_refines_step.
 Print Assumptions C04_getters.
+Print Assumptions C04_list_sorted.
 Print Assumptions C04_get_is_preimage.
 Print Assumptions C04_not_found.
 Print Assumptions C04_delete_total_storage.
